@@ -22,10 +22,11 @@ NOTE = ("Trusted: the gocv translator (SSA->SMT, memory model, panic edges), the
 CLAIMS = {
  "C01": "Unbounded proofs of the leaf predicates the script verdict is assembled from, each against a closed-form spec written from the BIP text: GetOpcode (exact opcode / push bytes / length for all four push encodings, progress >= 1), IsPushOnly and the sig-op scanners (termination, index safety), IsP2SH, IsWitnessProgram (BIP141), DecodeOP_N, IsValidSignatureEncoding (= the nine BIP66 rules, no index out of range for any byte string), IsDefinedHashtypeSignature, pubkey-encoding predicates and their flag logic, checkMinimalPush (BIP62), CheckSequence (BIP112). Equality of the composed verdict of evalScript with consensus is NOT decided.",
  "C04": "Unbounded proofs: CheckTransaction returns nil only if inputs and outputs are non-empty, 4*NoWitSize <= 4e6, a coinbase script is 2..100 bytes, no non-coinbase input is null, every output value <= MAX_MONEY and the mathematical sum of outputs <= MAX_MONEY (recursive spec sum, no wrap); IsCoinBase/IsNull/allzeros exact; GetBlockReward = floor(50e8 / 2^floor(h/210000)), 0 from 33 halvings on; sig-op scanners terminate and stay in bounds. Input-side sums, maturity, UTXO existence and atomicity inside commitTxs are NOT decided.",
+ "C08": "Limb layer of the 5x52 field, proved for all limb values within the stated magnitudes, in exact integer arithmetic: Field.Mul and Field.Sqr (inputs of magnitude <= 8): no 64-bit or 128-bit intermediate overflows - every discarded bits.Add64 carry is zero -, the result has magnitude 1 and value(r) = value(a)*value(b) (mod p), with r allowed to alias a and b; Normalize (magnitude <= 32): canonical output < p, congruent to the input; Negate, SetAdd, MulInt: no limb over/underflow, exact value equations, magnitude bookkeeping; SetInt, IsZero, IsOdd, Equals. The congruences are discharged by a mod-witness tactic whose output (quotient polynomial K and remainder Rest) is checked by the solver, not trusted. NOT decided yet: SetB32/GetB32, Inv/Sqrt chains, the Jacobian group formulas, the precomputed tables, ECmult/ECmultGen; the 10x26 representation is not compiled on this platform.",
  "C09": "Unbounded proof, per function and for every input byte string, of: CompactSize decoding (VLen/VULe: exact value, size, canonical-only, non-negative) and encoding (PutULe/PutVlen/VLenSize) against closed-form spec functions; NewTxIn/NewTxOut/TxInSize/TxOutSize exact consumed size; NewTx: total (every panic is recovered into (nil,0)), consumes between 10 and len(b) bytes, no nil input/output, witness-count = input-count, a witness-flagged tx carries a witness, every make() bounded by len(b), nothing but fresh memory written; TxSize: result within [0,len(b)], every loop iteration consumes input (variant len(b)-offs). Byte-exact re-encoding, txid/wtxid and block-level decoding are not decided by this check yet.",
  "C10": "Unbounded proofs: CompressAmount equals the closed-form amount code and DecompressAmount its inverse, with the round-trip lemma Decompress(Compress(n)) = n for all n < 2^60 (split by exponent 0..9); CompressScript/DecompressScript byte-exact contracts and the round trip Decompress(Compress(s)) = s for P2PKH, P2SH and compressed-key P2PK (harness proved from the two contracts), verbatim path (nil) for everything else; CompactSize codec shared with C09. Record (de)serialisers (SerializeU/C, NewUtxoRec*) and snapshot files are NOT decided; the uncompressed-key P2PK path rests on assumed secp256k1 contracts.",
 }
-ORDER = ["C01", "C04", "C09", "C10"]
+ORDER = ["C01", "C04", "C08", "C09", "C10"]
 
 def main():
     hooks = subprocess.check_output(['git', '-C', '/repo', 'log', '--format=%H %s']).decode().splitlines()
